@@ -453,6 +453,18 @@ Theorem C01_h3_replay_with_getbody_loses_the_body :
 Proof. exact h3_replay_with_getbody_loses_the_body. Qed.
 Print Assumptions C01_h3_replay_with_getbody_loses_the_body.
 
+(* --- round 7 --- *)
+(* a multipart file part carries the whole content for every way the reader cuts it into reads
+   (cookies written as a Cookie header next to the cookie API: C01_add_cookies_header above) *)
+Theorem C01_file_part_is_the_content : forall reads, file_part reads = concat reads.
+Proof. exact file_part_is_the_content. Qed.
+Print Assumptions C01_file_part_is_the_content.
+
+Theorem C01_short_first_read_cuts_the_file :
+  exists reads, file_part_short_first_is_all reads <> concat reads.
+Proof. exact short_first_read_cuts_the_file. Qed.
+Print Assumptions C01_short_first_read_cuts_the_file.
+
 (* non-vacuity: a template with two holes, overlapping client/request keys and hostile values *)
 Example C01_nonvacuous :
   let ts := [TLit (bs "/users/"); THole (bs "id"); TLit (bs "/files/"); THole (bs "name")] in
